@@ -360,7 +360,9 @@ Step == \/ Assign \/ Delete \/ Read \/ ClosureRead \/ Walrus \/ CondRead \/ Mayb
         \/ Handle \/ TryAbrupt \/ LeaveElse \/ LeaveHandler \/ FinallyDone \/ FinallyOverride \/ WithExit
         \/ LoopBreak \/ LoopContinue \/ Unwind \/ Finish
 
-NextRun == Step
+\* terminal states stutter, so that TLC's deadlock check means: no stuck state before the function has ended
+Stutter == m # NoMachine /\ m.out # "" /\ UNCHANGED <<prog, m>>
+NextRun == Step \/ Stutter
 
 SpecGen == InitGen /\ [][NextGen]_<<prog, m>>
 SpecRun == InitRun /\ [][NextRun]_<<prog, m>>
@@ -390,7 +392,7 @@ OutcomeWellFormed == (m # NoMachine /\ m.out # "") =>
                         /\ m.fins = m.tries                       \* every entered finally ran exactly once
 \* U / N are raised by uses only: the last log entry before an uncaught U / N outcome is a failed use
 ErrorsFromUses == (m # NoMachine /\ m.out \in {"U", "N"}) => \E i \in 1..Len(m.log) : m.log[i][2] < 0
-\* no stuck state
+\* no stuck state: CHECK_DEADLOCK TRUE in the run configurations (terminal states stutter); the same as an invariant:
 Progress == Running => ENABLED Step
 
 PublishRun == (Dump /\ m # NoMachine /\ m.out # "") =>
